@@ -806,3 +806,284 @@ class PartitionFlushAfterEmit(PartitionNode):
 
 
 ALL += [PartitionUpdate, PartitionUpdateNoTimeout, PartitionFlushTimer, PartitionFlushAfterEmit]
+
+
+# --------------------------------------------------------------------------- map_async
+class MapAsyncNode(Segment):
+    """Trusted asyncio.Queue(maxsize=p) model: ghost Q (FIFO of (task, metadata) pairs); full() <=> len(Q) >= p;
+    put() on a non-full queue does not suspend; get() hands out the head.
+    Ghost: awaited in {0,1} = the worker is awaiting a dequeued task; Waiting = arrival numbers of the _insert_job
+    coroutines that are waiting for a slot, in arrival order; my_pos = arrival number of this job."""
+    held_text = 'occ(mds_of(Q))'
+    files = ['streamz/core.py']
+    assumptions = ('asyncio.Queue(maxsize=p): FIFO, full() <=> qsize >= p, put on a non-full queue completes without '
+                   'suspending (trusted)', 'asyncio.create_task(coro) starts the coroutine in a later segment')
+
+    def make_self(self, I):
+        g = I.st.ghost
+        p = z3.Int('parallelism')
+        I.st.assume(p >= 1)
+        g['p'] = VInt(p)
+        Q = z3.Const('Q0', sym.SeqElemS)
+        g['Q'] = VSeq(Q, K_ELEM)
+        I.st.assume(z3.Length(Q) <= p)
+        g['awaited'] = VInt(z3.Int('awaited0'))
+        I.st.assume(z3.And(g['awaited'].t >= 0, g['awaited'].t <= 1))
+        g['created'] = VTuple([])
+        g['gathered'] = VTuple([])
+        g['stopped_called'] = VBool(False)
+        return {'func': VCallable('func'), 'args': ARGS, 'kwargs': KWARGS,
+                'work_queue': VRef(z3.Const('wq', sym.Obj), 'AQueue'),
+                'work_task': VTuple([VRef(z3.Const('stop_ev', sym.Obj), 'Event'), VAw(z3.Const('wtask', sym.Aw))]),
+                'stop_on_exception': VBool(z3.Bool('stop_on_exception'))}
+
+    def summaries(self):
+        d = Segment.summaries(self)
+
+        def full(I, recv, args, kwargs):
+            g = I.st.ghost
+            return VBool(z3.Length(g['Q'].t) >= g['p'].t)
+
+        def put(I, recv, args, kwargs):
+            g = I.st.ghost
+            a = VAw(z3.Const(sym.fresh_name('aput'), sym.Aw))
+            if I.branch(z3.Length(g['Q'].t) < g['p'].t):
+                g['Q'] = VSeq(z3.Concat(g['Q'].t, z3.Unit(I.as_elem(args[0]))), K_ELEM)
+                a.done = True
+                a.result = NONE
+            else:
+                g['blocked_put'] = args[0]
+            return a
+
+        def get(I, recv, args, kwargs):
+            g = I.st.ghost
+            g['q_get'] = VInt(g['q_get'].t + 1)
+            return VAw(z3.Const(sym.fresh_name('aget'), sym.Aw))
+
+        def task_done(I, recv, args, kwargs):
+            return NONE
+
+        def is_set(I, recv, args, kwargs):
+            return VBool(z3.Bool('stop_work_set'))
+
+        def create_task(I, recv, args, kwargs):
+            g = I.st.ghost
+            g['created'] = VTuple(g['created'].items + [args[0]])
+            if isinstance(args[0], VAw):
+                return args[0]
+            return VElem(sym.user_func('task_of', 1)(I.as_elem(args[0])))
+
+        def insert_job(I, recv, args, kwargs):
+            # calling an `async def` only creates the coroutine object; nothing of its body runs
+            a = VAw(z3.Const(sym.fresh_name('insert_job_coro'), sym.Aw))
+            I.st.ghost['insert_job_args'] = VTuple(list(args))
+            return a
+
+        def wait_slot(I, recv, args, kwargs):
+            # _wait_for_work_slot: spins on `await asyncio.sleep(0)` while the queue is full
+            g = I.st.ghost
+            a = VAw(z3.Const(sym.fresh_name('slot'), sym.Aw))
+            if I.branch(z3.Length(g['Q'].t) >= g['p'].t):
+                a.done = False
+            else:
+                a.done = True
+                a.result = NONE
+            return a
+
+        def stop(I, recv, args, kwargs):
+            I.st.ghost['stopped_called'] = VBool(True)
+            return NONE
+
+        def work_cb(I, recv, args, kwargs):
+            return VAw(z3.Const(sym.fresh_name('work_cb_coro'), sym.Aw))
+        d.update({'AQueue.full': full, 'AQueue.put': put, 'AQueue.get': get, 'AQueue.task_done': task_done,
+                  'Event.is_set': is_set, 'map_async._create_task': create_task, 'map_async._insert_job': insert_job,
+                  'map_async._wait_for_work_slot': wait_slot, 'map_async.stop': stop,
+                  'map_async.work_callback': work_cb})
+        return d
+
+    def spec_funcs(self):
+        d = Segment.spec_funcs(self)
+
+        def gather(I, args, kwargs, fr):
+            g = I.st.ghost
+            g['gathered'] = VTuple(g['gathered'].items + [a[1] if isinstance(a, tuple) else a for a in args])
+            return VAw(z3.Const(sym.fresh_name('gather'), sym.Aw))
+
+        def yield_(I, v, node, fr):
+            if isinstance(v, VAw) and getattr(v, 'done', None) is True:
+                return v.result      # awaiting something that does not suspend continues synchronously
+            return I.default_yield(v, node, fr)
+
+        def task_of(I, v):
+            return VElem(sym.user_func('task_of', 1)(I.as_elem(v)))
+        d.update({'builtin_asyncio.gather': gather, 'yield': yield_, 'task_of': task_of})
+        return d
+
+
+class MapAsyncUpdate(MapAsyncNode):
+    cls = 'map_async'
+    method = 'update'
+    start = 0
+    props = ['C02', 'C03', 'C04', 'C05']
+
+    def clauses(self):
+        return [Clause('C03.returns_the_insert_job_task', ['C03', 'C02'], when='return',
+                       text='len(created) == 1 and result == created[0] and insert_job_args[0] == x',
+                       note='the emitter waits until the job has entered the bounded work queue'),
+                Clause('C04.holds_while_job_not_yet_queued', ['C04'], when='return', text='delta >= occ(metadata)',
+                       note='H1: update returned to the emitter while the element only lives in a task that has not run yet'),
+                ] + self.segment_clauses()
+
+
+class MapAsyncInsertJob(MapAsyncNode):
+    """_insert_job from entry (or from a spin of _wait_for_work_slot) to its end"""
+    cls = 'map_async'
+    method = '_insert_job'
+    start = 0
+    props = ['C02', 'C03', 'C04', 'C05', 'C10']
+    inflight_pre = '0'
+    inflight_post = {'yield:1': '0'}
+
+    def make_locals(self, I, selfv):
+        g = I.st.ghost
+        g['Waiting'] = VSeq(z3.Const('Waiting0', z3.SeqSort(z3.IntSort())), K_INT)
+        g['my_pos'] = VInt(z3.Int('my_pos'))
+        # this job is one of the waiting jobs; Waiting is in arrival order
+        return {'self': selfv, 'x': VElem(z3.Const('x', sym.Elem)), 'metadata': VSeq(z3.Const('md', sym.SeqMdS), K_MDE)}
+
+    def requires(self, I, selfv, loc):
+        g = I.st.ghost
+        W = g['Waiting'].t
+        I.st.assume(z3.Contains(W, z3.Unit(g['my_pos'].t)))
+
+    def clauses(self):
+        job = 'pair(task_of(self.func(x, *self.args, **self.kwargs)), metadata)'
+        return [Clause('C02.job_enqueued_fifo', ['C02', 'C10'], when='return', text='Q == old(Q) + [%s]' % job,
+                       note='the job (mapped coroutine + metadata) joins the tail of the work queue exactly once'),
+                Clause('C02.slot_goes_to_the_longest_waiting_job', ['C02'], when='return', text='Waiting[0] == my_pos',
+                       kind='protocol',
+                       note='order preservation: a job may only take a free slot if no earlier arrival is still waiting for one'),
+                Clause('C03.created_unfinished_jobs_bounded_by_parallelism', ['C03'], when='return',
+                       text='len(Q) + awaited <= p', kind='protocol',
+                       note='documented bound: at most `parallelism` mapped coroutines exist at any time (queued + being awaited)'),
+                Clause('C03.spins_without_touching_the_queue', ['C03', 'C02'], when='yield:1',
+                       text='Q == old(Q) and len(Q) >= p and delta == 0'),
+                Clause('C05.retains_queued_job', ['C05', 'C04'], when='return', text='delta == occ(metadata)'),
+                ] + self.segment_clauses()
+
+
+class MapAsyncInsertJobResumed(MapAsyncInsertJob):
+    start = 1
+    name = 'map_async._insert_job@1'
+
+    def resume(self, I, loc):
+        # resumed inside _wait_for_work_slot: the loop re-checks full(); modelled by the same summary
+        g = I.st.ghost
+        if I.branch(z3.Length(g['Q'].t) >= g['p'].t):
+            from pyvc.state import SegmentYield
+            e = SegmentYield(NONE, None)
+            e.index = 1
+            raise e
+        return Resume(NONE)
+
+
+class MapAsyncWorkerTake(MapAsyncNode):
+    """work_callback resumed with the head of the queue: await the mapped coroutine"""
+    cls = 'map_async'
+    method = 'work_callback'
+    start = 1
+    props = ['C02', 'C03', 'C04', 'C05']
+    inflight_post = {'yield:2': 'occ(metadata)'}
+
+    def make_locals(self, I, selfv):
+        return {'self': selfv, 'stop_work': VRef(z3.Const('stop_ev', sym.Obj), 'Event')}
+
+    def resume(self, I, loc):
+        g = I.st.ghost
+        p = z3.Const('p_head', sym.Elem)
+        rest = z3.Const('Q_rest', sym.SeqElemS)
+        I.st.assume(g['Q'].t == z3.Concat(z3.Unit(p), rest))
+        I.st.assume(sym.f_mdpair(sym.f_mdpair_x(p), sym.f_mdpair_md(p)) == p)
+        I.st.assume(g['awaited'].t == 0)
+        g['Q'] = VSeq(rest, K_ELEM)
+        g['taken'] = VElem(p)
+        g['awaited'] = VInt(1)
+        return Resume(VElem(p))
+
+    balance_clause = BufferCb1.balance_clause
+
+    def clauses(self):
+        return [Clause('C02.awaits_the_head_job', ['C02'], when='yield:2',
+                       text='pair(task, metadata) == taken and emitted == [] and q_get == 0',
+                       note='jobs are completed one at a time in queue order'),
+                ] + self.segment_clauses()
+
+
+class MapAsyncWorkerResult(MapAsyncNode):
+    """the awaited job finished with a value: emit it, wait for downstream (if any), release, take the next"""
+    cls = 'map_async'
+    method = 'work_callback'
+    start = 2
+    props = ['C02', 'C03', 'C04', 'C05', 'C10']
+    inflight_pre = 'occ(metadata)'
+    inflight_post = {'yield:3': 'occ(metadata)', 'yield:1': '0', 'return': '0'}
+
+    def make_locals(self, I, selfv):
+        return {'self': selfv, 'stop_work': VRef(z3.Const('stop_ev', sym.Obj), 'Event'),
+                'task': VElem(z3.Const('task_l', sym.Elem)), 'metadata': VSeq(z3.Const('md', sym.SeqMdS), K_MDE)}
+
+    def resume(self, I, loc):
+        I.st.ghost['value'] = VElem(z3.Const('value', sym.Elem))
+        return Resume(VElem(z3.Const('value', sym.Elem)))
+
+    def clauses(self):
+        return [Clause('C02.emits_the_result_of_the_awaited_job_once', ['C02'], when='normal',
+                       text='emitted == [value]'),
+                Clause('C10.metadata_travels', ['C10'], when='normal', text='emitted_md == [metadata]'),
+                Clause('C03.waits_for_downstream_before_next_job', ['C03', 'C02'], when='yield:3',
+                       text='len(gathered) == 1 and gathered[0] == emit_rets[0] and q_get == 0 and delta == 0'),
+                Clause('C05.releases_when_nothing_to_wait_for', ['C05'], when='yield:1',
+                       text='delta == -occ(metadata) and q_get == 1'),
+                ] + self.segment_clauses()
+
+
+class MapAsyncWorkerFailed(MapAsyncNode):
+    """the awaited job raised: nothing is emitted; the element is released (logged and dropped)"""
+    cls = 'map_async'
+    method = 'work_callback'
+    start = 2
+    name = 'map_async.work_callback@2[job raised]'
+    props = ['C02', 'C05']
+    inflight_pre = 'occ(metadata)'
+    make_locals = MapAsyncWorkerResult.make_locals
+
+    def resume(self, I, loc):
+        return Resume(exc=VExc('UserError', payload='job'))
+
+    def clauses(self):
+        return [Clause('C02.failed_job_emits_nothing', ['C02'], when='normal', text='emitted == []'),
+                ] + self.segment_clauses()
+
+
+class MapAsyncWorkerAfterGather(MapAsyncNode):
+    cls = 'map_async'
+    method = 'work_callback'
+    start = 3
+    props = ['C05', 'C04', 'C02']
+    inflight_pre = 'occ(metadata)'
+
+    def make_locals(self, I, selfv):
+        loc = MapAsyncWorkerResult.make_locals(self, I, selfv)
+        loc['result'] = VElem(z3.Const('value', sym.Elem))
+        loc['results'] = I.st.new_list(z3.Const('results_l', sym.SeqAwS), K_AW)
+        return loc
+
+    def clauses(self):
+        return [Clause('C05.releases_after_downstream_completed', ['C05', 'C04'], when='normal',
+                       text='delta == -occ(metadata) and emitted == []')] + self.segment_clauses()
+
+
+from pyvc.sym import VExc
+ALL += [MapAsyncUpdate, MapAsyncInsertJob, MapAsyncInsertJobResumed, MapAsyncWorkerTake, MapAsyncWorkerResult,
+        MapAsyncWorkerFailed, MapAsyncWorkerAfterGather]
